@@ -369,6 +369,15 @@ func execute(c Case) (res worker.Result) {
 				key = "archive-root-replaced-by-symlink"
 			case hasLinks || k > 0 || len(sb.prepopLinks) > 0:
 				key = "write-through-link"
+				allCreated := true
+				for _, ch := range rep.Changes {
+					if ch.Kind != "created" {
+						allCreated = false
+					}
+				}
+				if allCreated {
+					key += ":creation" // e.g. through a dangling link: nothing existed at the real destination
+				}
 			default:
 				key = "outside-write:archive"
 			}
